@@ -105,6 +105,15 @@ func genAlignment(r *gen.Rand) (rows []string, class string) {
 			rows[i] = src
 		}
 	}
+	if L%4 == 0 && r.Chance(0.12) {
+		// two rows at exactly 3/4 differences (infinite raw JC69 distance)
+		a := r.Str(L, "ACGT")
+		i, j := r.Intn(n), r.Intn(n)
+		if i != j {
+			rows[i], rows[j] = a, exactlySaturated(r, a)
+			class += "+exactly-3/4"
+		}
+	}
 	gaps := r.Intn(4)
 	if gaps >= 2 {
 		for i := range rows {
@@ -127,6 +136,24 @@ func genAlignment(r *gen.Rand) (rows []string, class string) {
 		class += "+no-comparable-site"
 	}
 	return
+}
+
+// exactlySaturated returns a copy of s (over ACGT) in which exactly three positions out of four hold another
+// nucleotide: the observed proportion of differences is exactly 3/4, where the JC69 logarithm is log(0)
+// (an infinite, not a NaN, raw distance).
+func exactlySaturated(r *gen.Rand, s string) string {
+	b := []byte(s)
+	p := r.Perm(len(b))
+	for _, j := range p[:3*len(b)/4] {
+		for {
+			ch := "ACGT"[r.Intn(4)]
+			if ch != b[j] {
+				b[j] = ch
+				break
+			}
+		}
+	}
+	return string(b)
 }
 
 func genOpts(r *gen.Rand, L int) ref.NtOpts {
